@@ -109,7 +109,9 @@ def register(reg, S):
             ("first", "implies(prev_event is None, result.timestamp == us(0) and result._proximal_bpm_event_index == 0)"),
             ("chain", "implies(prev_event is not None, result.timestamp == prev_event.timestamp + TDF(SEC(data.tick - prev_event.tick, prev_event.bpm, resolution)) and result._proximal_bpm_event_index == prev_event._proximal_bpm_event_index + 1)"),
         ],
-        props=["C01", "C08", "C12", "C15"]))
+        props=["C01", "C08", "C12", "C15"],
+        # the decoded tempo value is C08's statement (and the BPM of C01's formula); the timestamp chain is C01/C12/C15's
+        clause_props={"bpm-nearest-float": ["C08", "C01"], "first": ["C01", "C12", "C15"], "chain": ["C01", "C12", "C15"]}))
     reg.add(Contract(
         "chartparse.sync:TimeSignatureEvent.from_parsed_data",
         params=dict(cls=_cls("chartparse.sync:TimeSignatureEvent"), data=S["TSData"],
@@ -119,7 +121,8 @@ def register(reg, S):
         raises=ts_raises,
         ensures=ts_post + [("upper", "result.upper_numeral == data.upper"),
                            ("lower", "result.lower_numeral == (4 if data.lower is None else pow2(data.lower))")],
-        props=["C01", "C08", "C11"]))
+        props=["C01", "C08", "C11"],
+        clause_props={"upper": ["C08"], "lower": ["C08"], "time-is-TS": ["C01", "C11"], "index-": ["C01", "C11"]}))
     reg.add(Contract(
         "chartparse.sync:AnchorEvent.from_parsed_data",
         params=dict(cls=_cls("chartparse.sync:AnchorEvent"), data=S["AnchorData"]), result=S["AnchorEvent"],
